@@ -8,6 +8,7 @@ import json, os, sys, time, collections
 from vlib import wire, rng, leanbuild, verdict, bot
 from vlib.verdict import Case
 import c18_plugin
+import c18_threads
 
 PROPERTY = 'C18'
 MANIFEST = {
@@ -21,7 +22,8 @@ THEOREMS = ['C18.name_invariant', 'C18.run_never_raises', 'C18.conservation', 'C
             'C18.run_not_early_and_complete', 'C18.run_fires_minimum', 'C18.raise_ends_only_its_body',
             'C18.periodic_recurs', 'C18.args_preserved', 'C18.scheduled_match_registration',
             'C18.reschedule_moves_entry', 'C18.plugin_invariant', 'C18.plugin_no_stale_runs',
-            'C18.reload_keeps_events', 'C18.reload_each_exactly_once', 'C18.load_restores_invariant']
+            'C18.reload_keeps_events', 'C18.reload_each_exactly_once', 'C18.load_restores_invariant',
+            'C18.lock_placement_ok', 'C18.threads_safe']
 TRUSTED = ['Lean 4.33.0 kernel; axioms ⊆ {propext, Classical.choice, Quot.sound}',
            'CPython heapq.heappop returns an entry with minimal due time (mytuple compares due times only); checked on every pop of the run',
            'harness/c18.py generators, instrumentation (virtual clock, recording heapq proxy, recording addEvent/removeEvent wrappers, instrumented event functions), canonicalisation; hex line protocol']
@@ -506,9 +508,27 @@ def run_plugin_case(ops, kind):
     finally:
         mod.heapq = saved
 
-def explore(stream, n, maxlen, corpus=(), budget=75.0, n_plugin=0, plugin_corpus=()):
+def run_thread_case(ops, kind):
+    mod, drivers, clk = env()
+    saved = mod.heapq
+    def install(im):
+        mod.heapq = HeapProxy(im)
+    try:
+        return c18_threads.run_case(ops, kind, mod, clk, install)
+    finally:
+        mod.heapq = saved
+
+def explore(stream, n, maxlen, corpus=(), budget=75.0, n_plugin=0, plugin_corpus=(), n_thread=0, thread_corpus=()):
     r = rng.make(stream)
     cases = []; lines = []; spans = []
+    rt = rng.make(stream + '-threads')
+    for i in range(len(thread_corpus) + n_thread):
+        ops = thread_corpus[i] if i < len(thread_corpus) else c18_threads.gen_ops(rt)
+        c, ml = run_thread_case(ops, 'threads-corpus' if i < len(thread_corpus) else 'threads')
+        spans.append((c, len(lines), len(ml), 1))
+        lines.extend(ml); cases.append(c)
+        if len([x for x in cases if x.oracle_ok is False]) >= 10:
+            break
     rp = rng.make(stream + '-plugin')
     tp = time.time()
     t_all = tp
@@ -602,6 +622,19 @@ def shrink(P, ops, budget=300):
                 P = cand
     return P, head + body
 
+def load_thread_corpus():
+    d = os.path.join(os.path.dirname(os.path.dirname(os.path.abspath(__file__))), 'corpus', 'C18')
+    out = []
+    try:
+        for f in sorted(os.listdir(d)):
+            if f.endswith('.json'):
+                j = json.load(open(os.path.join(d, f)))
+                if 'thread_ops' in j:
+                    out.append(j['thread_ops'])
+    except OSError:
+        pass
+    return out
+
 def load_plugin_corpus():
     d = os.path.join(os.path.dirname(os.path.dirname(os.path.abspath(__file__))), 'corpus', 'C18')
     out = []
@@ -650,7 +683,38 @@ def shrink_plugin_case(c, budget=150):
         return c2
     return c
 
+def shrink_thread_case(c, budget=200):
+    ops = c.input['thread_ops']
+    head, body = ops[:1], ops[1:]
+    want = _msg_kind(c.oracle_msg)
+    def bad(o):
+        try:
+            c2 = run_thread_case(o, 'shrink')[0]
+            return c2.oracle_ok is False and _msg_kind(c2.oracle_msg) == want
+        except Exception:
+            return False
+    n = 0
+    chunk = max(1, len(body) // 2)
+    while chunk >= 1 and n < budget:
+        i = 0; changed = False
+        while i < len(body) and n < budget:
+            cand = body[:i] + body[i + chunk:]
+            n += 1
+            if bad(head + cand):
+                body = cand; changed = True
+            else:
+                i += chunk
+        if not changed or chunk == 1:
+            chunk //= 2
+    c2, _ = run_thread_case(head + body, c.kind + '-shrunk')
+    if c2.oracle_ok is False:
+        c2.input['unshrunk'] = ops
+        return c2
+    return c
+
 def shrink_case(c):
+    if 'thread_ops' in c.input:
+        return shrink_thread_case(c)
     if 'plugin_ops' in c.input:
         return shrink_plugin_case(c)
     P, ops = shrink(c.input['prog'], c.input['ops'])
@@ -661,10 +725,11 @@ def shrink_case(c):
     return c
 
 def run(ctx):
-    build = leanbuild.ensure(PROPERTY, THEOREMS, thorough=ctx.thorough, extractors=[])
+    build = leanbuild.ensure(PROPERTY, THEOREMS, thorough=ctx.thorough, extractors=['SchedLock'])
     n, maxlen = (80000, 60) if ctx.thorough else (4000, 40)
     cases, lines, spans = explore('c18', n, maxlen, load_corpus(), budget=(780.0 if ctx.thorough else 75.0),
-                                  n_plugin=(2500 if ctx.thorough else 220), plugin_corpus=load_plugin_corpus())
+                                  n_plugin=(2500 if ctx.thorough else 220), plugin_corpus=load_plugin_corpus(),
+                                  n_thread=(20000 if ctx.thorough else 1500), thread_corpus=load_thread_corpus())
     if build.driver_ok:
         fill_model(cases, lines, spans)
     for i, c in enumerate(cases):
@@ -677,7 +742,7 @@ def run(ctx):
         os.environ['VERIF_SEED'] = str(ctx.seed + 7919)
         try:
             more, _, _ = explore('c18-search', 8000, 50, [(d.input['prog'], d.input['ops']) for d in disagreements[:50] if 'prog' in d.input],
-                                 n_plugin=600, plugin_corpus=[d.input['plugin_ops'] for d in disagreements[:20] if 'plugin_ops' in d.input])
+                                 n_thread=3000, n_plugin=600, plugin_corpus=[d.input['plugin_ops'] for d in disagreements[:20] if 'plugin_ops' in d.input])
         finally:
             os.environ['VERIF_SEED'] = str(ctx.seed)
         bad = [c for c in more if c.oracle_ok is False]
@@ -697,6 +762,15 @@ def replay(ctx, path):
     c = d.get('case') or d.get('first_disagreement')
     if not c:
         print(json.dumps(d, indent=1)[:3000]); return 0
+    if 'thread_ops' in c['input']:
+        ops = c['input']['thread_ops']
+        case, _ = run_thread_case(ops, 'replay')
+        print('operations on a real Schedule; ["race", A, B] = thread B gets the lock at the moment thread A asks for it:')
+        for i, op in enumerate(ops):
+            print('  #%d %s' % (i, json.dumps(op)))
+        print('recorded oracle message:', c.get('oracle_msg'))
+        print('implementation now: oracle_ok=%s %s' % (case.oracle_ok, case.oracle_msg))
+        return 0 if case.oracle_ok else 1
     if 'plugin_ops' in c['input']:
         ops = c['input']['plugin_ops']
         case, _ = run_plugin_case(ops, 'replay')
